@@ -360,9 +360,11 @@ def gen_project(r, feat=None):
     if f["module_tags"] and project["types"]:
         for slot in range(r.randint(0, 2)):
             tn = r.choice(list(project["types"]))
-            for suffix in r.sample(["I", "O", "C"], r.randint(1, 2)):
-                mn = r.choice(("Local", "Rack1", "ENBT"))
-                name = f"{mn}:{slot + 1}:{suffix}"
+            # the connection suffixes modules really have: input/output/config/status, numbered connections of
+            # multi-connection devices, safety input/output; rack-less devices (drives) have no slot part
+            for suffix in r.sample(["I", "O", "C", "S", "I1", "O1", "SI", "SO"], r.randint(1, 3)):
+                mn = r.choice(("Local", "Rack1", "ENBT", "Drive", "Guard"))
+                name = f"{mn}:{slot + 1}:{suffix}" if mn not in ("Drive",) else f"{mn}{slot + 1}:{suffix}"
                 if name.lower() in names_ctrl:
                     continue
                 names_ctrl.add(name.lower())
